@@ -70,6 +70,38 @@ def huge_int_probe(ctx, prop):
                           outcomes=sorted(kinds), exception="ValueError " + " ".join(exc), **info)
 
 
+def declaration_corner_probe(ctx):
+    """C10: patterns re.compile refuses with something other than re.error; junk given to schema.alias and used afterwards"""
+    ctx.count("declaration_corner_probes")
+    for pat in ("a{4294967296}", "a{99999999999999999999}", "a{2,99999999999999999999}", "(", "[", "a**", "(?P<n>a)(?P<n>b)", "\\",
+                "(?<=a+)b", "\\9", "(?z)"):
+        for chain, f in (("schema.str.regex(p)", lambda: schema.str.regex(pat)), ("schema.str('aa').regex(p)", lambda: schema.str("aa").regex(pat)),
+                         ("schema.str.alphabet('a').regex(p)", lambda: schema.str.alphabet("a").regex(pat))):
+            try:
+                f()
+            except DeclarationError:
+                pass
+            except Exception as e:  # noqa: BLE001
+                ctx.violation("a declaration call raised %s (not DeclarationError)" % type(e).__name__, chain=chain, pattern=pat,
+                              exception=repr(e)[:200])
+    for junk in (2, None, "int", [schema.int], {"a": 1}, ..., object()):
+        for name in ("n", 5, None):
+            steps = [("schema.alias(name, junk)", lambda: schema.alias(name, junk)),
+                     ("schema.list(schema.alias(name, junk)).len('x')", lambda: schema.list(schema.alias(name, junk)).len("x")),
+                     ("schema.any(schema.alias(name, junk))(schema.int)", lambda: schema.any(schema.alias(name, junk))(schema.int)),
+                     ("schema.dict({'k': schema.alias(name, junk)})({})", lambda: schema.dict({"k": schema.alias(name, junk)})({})),
+                     ("schema.alias(name, junk) | schema.int", lambda: schema.alias(name, junk) | schema.int)]
+            for chain, f in steps:
+                try:
+                    f()
+                except DeclarationError:
+                    pass
+                except Exception as e:  # noqa: BLE001
+                    ctx.violation("a declaration call raised %s (not DeclarationError)" % type(e).__name__, chain=chain,
+                                  alias_name=repr(name), alias_target=repr(junk)[:60], exception=repr(e)[:200])
+                    break
+
+
 def _deep_list(n):
     v = []
     for _ in range(n):
